@@ -41,9 +41,12 @@
  *   S <tree> <flags>                       serialization only (used by the generator)
  *      -> S <ser>
  * msg: json_util_get_last_err() != NULL after the call (the message is cleared before it);
- * pcalls/pdepth/pbuf: number of json_tokener_parse_ex calls made by json_util.c, max_depth of
- * the tokener and the bytes handed to the first; ref/referr: json_tokener_parse_ex of the same
- * bytes from memory, one call, tokener of the configured depth; <ser>: a plain
+ * pcalls/pdepth/pbuf: number of json_tokener_parse_ex calls made by json_util.c (1, or 2 when the
+ * first ended in json_tokener_continue without a value and the terminating NUL was handed over;
+ * a '!' is appended when a second call was not "same tokener, the one byte 0 right behind the
+ * first call's bytes"), max_depth of the tokener and the bytes handed to the first;
+ * ref/referr: the same two-step parse of the same bytes from memory with a tokener of the
+ * configured depth — referr is e<final error>c<number of calls>; <ser>: a plain
  * json_object_to_json_string_ext(tree, flags) taken before the call; leak: live allocations
  * after everything was released minus those at the start.  A stub called with a descriptor
  * other than the one in play appends " BADFD". */
@@ -93,6 +96,7 @@ static struct {
 	int open_ok, open_errno, fail_errno;
 	int fsmode, file, rd, wr, app; size_t off; int oflags, oflags_seen;
 	long pcalls; int pdepth; unsigned char *pbuf; size_t plen;
+	struct json_tokener *ptok; const char *pstr; int p2bad;
 } vf;
 
 static int errno_of(const char *name, size_t n)
@@ -255,7 +259,9 @@ static struct json_object *vf_parse_ex(struct json_tokener *t, const char *s, in
 		vf.pbuf = (unsigned char *)malloc(n ? n : 1);
 		memcpy(vf.pbuf, s, n);
 		vf.plen = n;
-	}
+		vf.ptok = t; vf.pstr = s;
+	} else if (!(t == vf.ptok && len == 1 && s == vf.pstr + vf.plen && s[0] == 0))
+		vf.p2bad = 1;
 	return json_tokener_parse_ex(t, s, len);
 }
 
@@ -270,6 +276,37 @@ static struct json_object *vf_parse_ex(struct json_tokener *t, const char *s, in
 #undef open
 #undef close
 #undef json_tokener_parse_ex
+
+/* the reference: the same bytes from memory, tokener of the given depth, the two steps the
+ * property now reads as "parsing from memory": one call on the bytes and, when that yields no
+ * value with json_tokener_continue, one more on a NUL byte.  Prints "<dump|NULL|NONEW> <e..c..|->" */
+static void put_pcalls(void)
+{
+	printf("%ld%s", vf.pcalls, vf.p2bad ? "!" : "");
+}
+static void ref_parse(const unsigned char *doc, size_t n, int depth)
+{
+	struct json_tokener *t2 = json_tokener_new_ex(depth);
+	unsigned char *copy;
+	struct json_object *o2;
+	int calls = 1;
+	if (!t2) { printf("NONEW -"); return; }
+	copy = (unsigned char *)malloc(n ? n : 1);       /* exact size: ASan sees overreads */
+	memcpy(copy, doc, n);
+	o2 = json_tokener_parse_ex(t2, (const char *)copy, (int)n);
+	if (!o2 && json_tokener_get_error(t2) == json_tokener_continue) {
+		char *nul = (char *)malloc(1);
+		nul[0] = 0;
+		o2 = json_tokener_parse_ex(t2, nul, 1);
+		calls = 2;
+		free(nul);
+	}
+	if (o2) jv_dump(o2); else printf("NULL");
+	printf(" e%dc%d", (int)json_tokener_get_error(t2), calls);
+	if (o2) json_object_put(o2);
+	json_tokener_free(t2);
+	free(copy);
+}
 
 static void vf_reset(const char *sched)
 {
@@ -338,7 +375,6 @@ static void do_read(int file, const char *open_tok, const char *hex, const char 
 	int depth = (file || use_fd) ? -1 : atoi(depth_s);
 	int eff = depth == -1 ? JSON_TOKENER_DEFAULT_DEPTH : depth;
 	struct json_object *o;
-	struct json_tokener *t2;
 	int msg;
 	vf_reset(sched);
 	set_open(open_tok);
@@ -349,24 +385,11 @@ static void do_read(int file, const char *open_tok, const char *hex, const char 
 	msg = json_util_get_last_err() != NULL;
 	printf("%s ", file ? "FR" : "R");
 	if (o) jv_dump(o); else printf("NULL");
-	printf(" %d %ld %ld ", msg, vf.reads, vf.pcalls);
+	printf(" %d %ld ", msg, vf.reads); put_pcalls(); putchar(' ');
 	if (vf.pcalls) { printf("%d ", vf.pdepth); puthex(vf.pbuf, vf.plen); }
 	else printf("- -");
 	putchar(' ');
-	/* the same bytes from memory, one call, tokener of the configured depth */
-	t2 = json_tokener_new_ex(eff);
-	if (!t2) printf("NONEW -");
-	else {
-		unsigned char *copy = (unsigned char *)malloc(n ? n : 1);   /* exact size: ASan sees overreads */
-		struct json_object *o2;
-		memcpy(copy, doc, n);
-		o2 = json_tokener_parse_ex(t2, (const char *)copy, (int)n);
-		if (o2) jv_dump(o2); else printf("NULL");
-		printf(" e%d", (int)json_tokener_get_error(t2));
-		if (o2) json_object_put(o2);
-		json_tokener_free(t2);
-		free(copy);
-	}
+	ref_parse(doc, n, eff);
 	if (file) printf(" %ld %ld", vf.opens, vf.closes);
 	if (o) json_object_put(o);
 	free(vf.pbuf);
@@ -441,24 +464,12 @@ static void do_history(char *init, char *steps, long live0)
 			msg = json_util_get_last_err() != NULL;
 			printf("r ");
 			if (o) jv_dump(o); else printf("NULL");
-			printf(" %d %ld %ld ", msg, vf.reads, vf.pcalls);
+			printf(" %d %ld ", msg, vf.reads); put_pcalls(); putchar(' ');
 			if (vf.pcalls) { printf("%d ", vf.pdepth); puthex(vf.pbuf, vf.plen); } else printf("- -");
 			putchar(' ');
 			/* the reference: the contents (a read does not change them), parsed from memory */
 			if (f < 0) printf("ABSENT -");
-			else {
-				struct json_tokener *t2 = json_tokener_new_ex(JSON_TOKENER_DEFAULT_DEPTH);
-				size_t n = vfs[f].len;
-				unsigned char *copy = (unsigned char *)malloc(n ? n : 1);
-				struct json_object *o2;
-				memcpy(copy, vfs[f].data, n);
-				o2 = json_tokener_parse_ex(t2, (const char *)copy, (int)n);
-				if (o2) jv_dump(o2); else printf("NULL");
-				printf(" e%d", (int)json_tokener_get_error(t2));
-				if (o2) json_object_put(o2);
-				json_tokener_free(t2);
-				free(copy);
-			}
+			else ref_parse(vfs[f].data, vfs[f].len, JSON_TOKENER_DEFAULT_DEPTH);
 			printf(" %ld %ld ", vf.opens, vf.closes);
 			put_oflags(); putchar(' '); put_file(pc[0]);
 			if (o) json_object_put(o);
